@@ -1,4 +1,393 @@
+/-
+Line-protocol handler for C11.  One input line is a whole case: a history of operations on a
+fresh world (user saves / deletes, logins, refreshes, ageing, requests on every entry point), each
+operation optionally followed by `@<outcome the implementation showed>`.  For every operation the
+driver answers `<model outcome>~<verdict>`: the outcome of the executable model, and the verdict of
+the reference monitor (Spec/Monitor.lean) on the *implementation's* outcome in the monitor's own
+state.  Sub-models are also reachable directly: `canon`, `extract`, `base`.
+-/
+import IpcHub.Drv.Util
+import IpcHub.Spec.Monitor
+import IpcHub.Model.AuthInst
 namespace IpcHub.Drv.C11
-/-- placeholder: no model built for this property yet -/
-def handle (_ : List String) : String := "bad-op"
+open IpcHub.PathMatch IpcHub.Auth IpcHub.Monitor IpcHub.Drv
+
+def cfg : Auth.Cfg := Auth.genCfg
+
+def env : Env :=
+  { lower := asciiLower, isSpace := asciiSpace, canon := canonicalPath cfg,
+    openPaths := ["/api/v1/login", "/api/v1/server", "/api/v1/runtime", "/api/v1/refreshtoken"].map String.toList,
+    streamQueryPrefix := "/api/v1/streams".toList }
+
+structure St where
+  w : World
+  sw : SWorld
+  ws : List (Nat × WsConn) := []                       -- upgraded WebSocket connections
+  rtsp : List (String × RtspSess × SSess) := []        -- RTSP sessions: "n<j>" plain, "w<j>" on ws conn j
+  wsp : List (Nat × WspSess) := []
+  nRtsp : Nat := 0
+  deriving Repr
+
+def St.init : St :=
+  { w := { authOn := true, users := [], toks := [], next := 0, now := 0, streams := [] },
+    sw := { authOn := true, hist := [], grants := [], now := 0 } }
+
+def hx (s : String) : Option (List Char) := hexToChars s
+
+def parseSecret (s : String) : Option Secret :=
+  match s.toList with
+  | 'p' :: r => (hexToChars (String.ofList r)).map Secret.plain
+  | 'm' :: r => (hexToChars (String.ofList r)).map Secret.md5
+  | _ => none
+
+/-- token reference: `-` none, `A<k>` / `R<k>` the access / refresh token of the k-th issued pair, `X<n>` a string never issued -/
+def parseTok (s : String) : Option TokRef :=
+  match s.toList with
+  | ['-'] => some none
+  | 'A' :: r => (String.ofList r).toNat?.map (fun k => some (2 * k))
+  | 'R' :: r => (String.ofList r).toNat?.map (fun k => some (2 * k + 1))
+  | 'X' :: r => (String.ofList r).toNat?.map (fun k => some (1000000 + k))
+  | _ => none
+
+def parseHM (s : String) : Option HMethod :=
+  match s with | "G" => some .get | "C" => some .connect | "O" => some .other | _ => none
+
+def parseMethod (s : String) : Option Method :=
+  match s with
+  | "OPTIONS" => some .options | "DESCRIBE" => some .describe | "ANNOUNCE" => some .announce
+  | "SETUP" => some .setup | "PLAY" => some .play | "RECORD" => some .record
+  | "TEARDOWN" => some .teardown | "PAUSE" => some .pause | "OTHER" => some .other
+  | _ => none
+
+def parseCtrl (s : String) : Option Ctrl :=
+  match s with | "v" => some .video | "a" => some .audio | "u" => some .unknown | _ => none
+
+def parseTr (s : String) : Option TrSpec :=
+  match s.splitOn "/" with
+  | [sp, md, bad] =>
+    let spec : Option (Option TType) := match sp with
+      | "t" => some (some .tcp) | "u" => some (some .udp) | "m" => some (some .mcast) | "x" => some none | _ => none
+    let mode : Option (Option Mode) := match md with
+      | "-" => some none | "r" => some (some .record) | "p" => some (some .play) | _ => none
+    match spec, mode with
+    | some sp, some md => some { spec := sp, modeParam := md, bad := bad = "1" }
+    | _, _ => none
+  | _ => none
+
+def parseCred (s : String) : Option (Option Cred) :=
+  if s = "-" then some none else
+  match s.splitOn "/" with
+  | [u, p, f] =>
+    match hx u, parseSecret p with
+    | some u, some p => some (some { user := u, secret := p, fresh := f = "1" })
+    | _, _ => none
+  | _ => none
+
+def keyHex (k : List Char) : String := charsToHex k
+
+def showHttp : HttpOut → String
+  | .redirect => "301" | .crossdomain => "xd" | .unauthorized => "401" | .forbidden => "403"
+  | .serve k key =>
+    let ks := match k with | .flv => "flv" | .m3u8 => "m3u8" | .ts => "ts" | .wsflv => "wsflv" | .wsrtsp => "wsrtsp" | .wsp => "wsp"
+    s!"sv.{ks}.{keyHex key}"
+  | .noMedia c => s!"nm.{c}" | .panic => "panic"
+
+def parseHttp (s : String) : Option HttpOut :=
+  match s.splitOn "." with
+  | ["301"] => some .redirect | ["xd"] => some .crossdomain | ["401"] => some .unauthorized
+  | ["403"] => some .forbidden | ["panic"] => some .panic
+  | ["nm", c] => c.toNat?.map HttpOut.noMedia
+  | ["sv", k, key] =>
+    let kind : Option Kind := match k with
+      | "flv" => some .flv | "m3u8" => some .m3u8 | "ts" => some .ts | _ => none
+    match kind, hx key with
+    | some k, some key => some (.serve k key)
+    | _, _ => none
+  | _ => none
+
+def showApi : ApiOut → String
+  | .redirect => "301" | .crossdomain => "xd" | .open_ => "pass" | .unauthorized => "401"
+  | .forbidden => "403" | .pass _ => "pass"
+
+def showVerdict : Verdict → String
+  | .ok => "ok" | .unsound => "UNSOUND" | .incomplete => "INCOMPLETE"
+
+def showEff : Effect → String
+  | .none => "-" | .describe k => s!"d.{keyHex k}" | .play k => s!"p.{keyHex k}" | .publish k => s!"b.{keyHex k}"
+
+def parseEff (s : String) : Option Effect :=
+  match s.splitOn "." with
+  | ["-"] => some .none
+  | ["d", k] => (hx k).map Effect.describe
+  | ["p", k] => (hx k).map Effect.play
+  | ["b", k] => (hx k).map Effect.publish
+  | _ => none
+
+def showRtsp (o : RtspOut) : String := s!"{o.code}/{showEff o.eff}"
+
+def parseRtsp (s : String) : Option RtspOut :=
+  match s.splitOn "/" with
+  | [c, e] => match c.toNat?, parseEff e with
+    | some c, some e => some { code := c, eff := e }
+    | _, _ => none
+  | _ => none
+
+/-- split `op@impl` -/
+def splitImpl (tok : String) : String × String :=
+  match tok.splitOn "@" with
+  | [a, b] => (a, b)
+  | _ => (tok, "")
+
+def userIn (name admin push pull pw : String) : Option UserIn :=
+  match hx name, hx push, hx pull, parseSecret pw with
+  | some n, some ps, some pl, some p => some { name := n, password := p, admin := admin = "1", push := ps, pull := pl }
+  | _, _, _, _ => none
+
+/-- the implementation's API outcome as the monitor sees it: a call that reached the router with a
+    valid token is `pass <that user>`; one that reached it without is "open" -/
+def implApi (st : St) (p : List Char) (t : TokRef) (impl : String) : Option ApiOut :=
+  match impl with
+  | "301" => some .redirect | "xd" => some .crossdomain | "401" => some .unauthorized | "403" => some .forbidden
+  | "pass" =>
+    if isOpenPath env p then some .open_
+    else match who st.sw t with
+      | some u => some (.pass u)
+      | none => some .open_
+  | _ => none
+
+/-- the spec user of an access token, judged in the monitor state -/
+def specUserOf (st : St) (tok : TokRef) : Option (List Char) := who st.sw tok
+
+def addGrant (st : St) (k : Nat) (user : List Char) : St :=
+  { st with sw := { st.sw with grants :=
+      { user := user, a := 2 * k, r := 2 * k + 1, aexp := st.sw.now + cfg.accessTTL, rexp := st.sw.now + cfg.refreshTTL, live := true } :: st.sw.grants } }
+
+def parseIssued (s : String) : Option Nat :=
+  match s.toList with
+  | 't' :: r => (String.ofList r).toNat?
+  | _ => none
+
+def showIssued (_st : St) (t : Option Tok) : String :=
+  match t with
+  | some tok => s!"t{tok.a / 2}"
+  | none => "no"
+
+def findRtsp (st : St) (k : String) : Option (RtspSess × SSess) :=
+  (st.rtsp.find? (·.1 = k)).map (·.2)
+
+def setRtsp (st : St) (k : String) (v : RtspSess × SSess) : St :=
+  { st with rtsp := (k, v) :: st.rtsp.filter (·.1 ≠ k) }
+
+/-- one operation: new state and the answer `<model>~<verdict>` -/
+def stepOp (st : St) (tok : String) : St × String :=
+  let (op, impl) := splitImpl tok
+  let bad := (st, "bad-op")
+  match op.splitOn ":" with
+  | ["auth", b] =>
+    ({ st with w := { st.w with authOn := b = "1" }, sw := { st.sw with authOn := b = "1" } }, "ok~ok")
+  | ["st", key] =>
+    match hx key with
+    | some k => ({ st with w := { st.w with streams := { key := canonicalPath cfg k, segs := [1, 2, 3], owner := none } :: st.w.streams } }, "ok~ok")
+    | none => bad
+  | ["sv", name, admin, push, pull, pw, upd] =>
+    match userIn name admin push pull pw with
+    | some u =>
+      ({ st with w := { st.w with users := saveUser cfg st.w.users u (upd = "1") },
+                 sw := { st.sw with hist := .save u (upd = "1") :: st.sw.hist } }, "ok~ok")
+    | none => bad
+  | ["dl", name] =>
+    match hx name with
+    | some n => ({ st with w := { st.w with users := delUser cfg st.w.users n },
+                           sw := { st.sw with hist := .del n :: st.sw.hist } }, "ok~ok")
+    | none => bad
+  | ["ag", secs] =>
+    match secs.toNat? with
+    | some d => ({ st with w := { st.w with now := st.w.now + d }, sw := { st.sw with now := st.sw.now + d } }, "ok~ok")
+    | none => bad
+  | ["ex"] => ({ st with w := { st.w with toks := expCheck st.w.toks st.w.now } }, "ok~ok")
+  | ["li", name, pw] =>
+    match hx name, parseSecret pw with
+    | some n, some p =>
+      let (w', t) := apiLogin cfg st.w n p
+      let issued := parseIssued impl
+      let v := judgeLogin env st.sw n p (issued.map (fun _ => n.map asciiLower))
+      let st := { st with w := w' }
+      let st := match issued with
+        | some k => if loginOk env st.sw n p then addGrant st k (n.map asciiLower) else st
+        | none => st
+      (st, s!"{showIssued st t}~{showVerdict v}")
+    | _, _ => bad
+  | ["rf", tk] =>
+    match parseTok tk with
+    | some t =>
+      let (w', r) := apiRefresh cfg st.w t
+      let issued := parseIssued impl
+      let want := match t with | some x => (refreshGrant st.sw.grants st.sw.now x).2 | none => none
+      let v := judgeRefresh st.sw t (match issued, want with
+        | some _, some u => some u      -- the implementation does not disclose the user; assume the right one
+        | some _, none => some []
+        | none, _ => none)
+      let gs := match t with | some x => (refreshGrant st.sw.grants st.sw.now x).1 | none => st.sw.grants
+      let st := { st with w := w', sw := { st.sw with grants := gs } }
+      let st := match issued, want with
+        | some k, some u => addGrant st k u
+        | _, _ => st
+      (st, s!"{showIssued st r}~{showVerdict v}")
+    | none => bad
+  | ["hs", m, path, tk] =>
+    match parseHM m, hx path, parseTok tk with
+    | some m, some p, some t =>
+      let (w', out) := httpStream cfg st.w m p t
+      let v := match parseHttp impl with
+        | some io => judgeHttp env st.sw p t io
+        | none => .ok
+      ({ st with w := w' }, s!"{showHttp out}~{showVerdict v}")
+    | _, _, _ => bad
+  | ["ap", m, path, tk] =>
+    match hx path, parseTok tk with
+    | some p, some t =>
+      let hm : HMethod := if m = "C" then .connect else if m = "G" then .get else .other
+      let isGet := m = "G"
+      let (w', out) := apiGate cfg st.w hm isGet p t
+      let v := match implApi st p t impl with
+        | some io => judgeApi env st.sw isGet p t io
+        | none => .ok
+      ({ st with w := w' }, s!"{showApi out}~{showVerdict v}")
+    | _, _ => bad
+  | ["asv", tk, name, admin, push, pull, pw, upd] =>
+    match parseTok tk, userIn name admin push pull pw with
+    | some t, some u =>
+      let p := "/api/v1/users".toList
+      let (w', out) := apiGate cfg st.w .other false p t
+      let w' := match out with
+        | .pass _ => { w' with users := saveUser cfg w'.users u (upd = "1") }
+        | _ => w'
+      let v := match implApi st p t impl with | some io => judgeApi env st.sw false p t io | none => .ok
+      let sw := if impl = "pass" then { st.sw with hist := .save u (upd = "1") :: st.sw.hist } else st.sw
+      ({ st with w := w', sw := sw }, s!"{showApi out}~{showVerdict v}")
+    | _, _ => bad
+  | ["adl", tk, name] =>
+    match parseTok tk, hx name with
+    | some t, some n =>
+      let p := "/api/v1/users/".toList ++ n
+      let (w', out) := apiGate cfg st.w .other false p t
+      let w' := match out with
+        | .pass _ => { w' with users := delUser cfg w'.users n }
+        | _ => w'
+      let v := match implApi st p t impl with | some io => judgeApi env st.sw false p t io | none => .ok
+      let sw := if impl = "pass" then { st.sw with hist := .del n :: st.sw.hist } else st.sw
+      ({ st with w := w', sw := sw }, s!"{showApi out}~{showVerdict v}")
+    | _, _ => bad
+  | ["ws", sub, path, tk] =>
+    let sub? : Option WsSub := match sub with
+      | "rtsp" => some .rtsp | "control" => some .control | "data" => some .data | "none" => some .none | _ => none
+    match sub?, hx path, parseTok tk with
+    | some sb, some p, some t =>
+      let (w', out) := wsUpgrade cfg st.w p t sb
+      let j := st.ws.length
+      let st1 := { st with w := w' }
+      -- the implementation's outcome, for the monitor
+      let cu : WsConn := { path := [], user := (who st.sw t).getD [] }
+      let io : Option WsOut := match impl.splitOn "." with
+        | ["301"] => some .redirect | ["xd"] => some .crossdomain | ["401"] => some .unauthorized
+        | ["403"] => some .forbidden | ["panic"] => some .panic
+        | ["up", _] => some (WsOut.upgraded cu)
+        | ["cl", _] => some (WsOut.closed cu)
+        | ["fl", _, key] => (hx key).map (fun k => WsOut.serveFlv cu k)
+        | _ => none
+      let v := match io with | some io => judgeWs env st.sw p t io | none => .ok
+      match out with
+      | .upgraded c =>
+        let st2 := { st1 with ws := st1.ws ++ [(j, c)] }
+        let st2 := if sb = .rtsp then setRtsp st2 s!"w{j}" (newRtspSess st2.w (1000 + j) (some c), { resource := c.path }) else st2
+        (st2, s!"up.{j}~{showVerdict v}")
+      | .serveFlv c key => ({ st1 with ws := st1.ws ++ [(j, c)] }, s!"fl.{j}.{keyHex key}~{showVerdict v}")
+      | .closed c => ({ st1 with ws := st1.ws ++ [(j, c)] }, s!"cl.{j}~{showVerdict v}")
+      | .redirect => (st1, s!"301~{showVerdict v}")
+      | .crossdomain => (st1, s!"xd~{showVerdict v}")
+      | .unauthorized => (st1, s!"401~{showVerdict v}")
+      | .forbidden => (st1, s!"403~{showVerdict v}")
+      | .panic => (st1, s!"panic~{showVerdict v}")
+    | _, _, _ => bad
+  | ["ro", j] =>
+    match j.toNat? with
+    | some j => (setRtsp st s!"n{j}" (newRtspSess st.w j none, {}), "ok~ok")
+    | none => bad
+  | ["rc", k] =>
+    match findRtsp st k with
+    | some (s, _) => ({ st with w := st.w.unregisterOwner s.id, rtsp := st.rtsp.filter (·.1 ≠ k) }, "ok~ok")
+    | none => (st, "ok~ok")
+  | ["rt", k, m, url, cred, ct, sdp, ctrl, tr] =>
+    match findRtsp st k, parseMethod m, hx url, parseCred cred, parseCtrl ctrl, parseTr tr with
+    | some (s, ss), some m, some u, some c, some ctl, some tr =>
+      let rq : RtspReq := { method := m, urlPath := u, cred := c, ctOk := ct = "1", sdpOk := sdp = "1", ctrl := ctl, tr := tr }
+      let (w', s', out) := rtspStep cfg st.w s rq
+      let io := parseRtsp impl
+      let v := match io with | some io => judgeRtsp env st.sw ss s.ws rq io | none => .ok
+      let ss' := match io with | some io => ss.step env s.ws rq io | none => ss
+      (setRtsp { st with w := w' } k (s', ss'), s!"{showRtsp out}~{showVerdict v}")
+    | _, _, _, _, _, _ => bad
+  | ["wc", j] =>
+    match j.toNat? with
+    | some j =>
+      match st.ws.find? (·.1 = j) with
+      | some (_, c) =>
+        let i := st.wsp.length
+        ({ st with wsp := st.wsp ++ [(i, { chan := i, conn := c })] }, s!"ch.{i}~ok")
+      | none => (st, "err~ok")
+    | none => bad
+  | ["wd", j, ch] =>
+    match j.toNat? with
+    | some j =>
+      match st.ws.find? (·.1 = j) with
+      | some (_, dc) =>
+        let sess := match ch.toNat? with
+          | some i => (st.wsp.find? (·.1 = i)).map (·.2)
+          | none => none
+        let (code, s') := wspJoin cfg st.w sess dc
+        let v := match impl.toNat? with
+          | some ic => judgeJoin env st.sw (sess.map (fun s => (s.conn, s.attached))) dc ic
+          | none => .ok
+        let st := match s' with
+          | some s => { st with wsp := st.wsp.map (fun e => if e.1 = s.chan then (e.1, s) else e) }
+          | none => st
+        (st, s!"{code}~{showVerdict v}")
+      | none => (st, "err~ok")
+    | none => bad
+  | ["wr", i, m, ctrl, trok] =>
+    match i.toNat?, parseMethod m, parseCtrl ctrl with
+    | some i, some m, some ctl =>
+      match st.wsp.find? (·.1 = i) with
+      | some (_, s) =>
+        let (s', out) := wspStep cfg st.w s m ctl (trok = "1")
+        let v := match parseRtsp impl with
+          | some io => judgeWsp env st.sw s.conn s.data io
+          | none => .ok
+        ({ st with wsp := st.wsp.map (fun e => if e.1 = i then (i, s') else e) }, s!"{showRtsp out}~{showVerdict v}")
+      | none => (st, "err~ok")
+    | _, _, _ => bad
+  | _ => bad
+
+def runCase (ops : List String) : String :=
+  let (_, outs) := ops.foldl (fun (acc : St × List String) op =>
+    let (st', o) := stepOp acc.1 op
+    (st', o :: acc.2)) (St.init, [])
+  " ".intercalate outs.reverse
+
+def handle : List String → String
+  | "case" :: ops => runCase ops
+  | ["canon", p] => match hx p with | some p => charsToHex (canonicalPath cfg p) | none => "bad-op"
+  | ["clean", p] => match hx p with | some p => charsToHex (cleanKeepSlash p) | none => "bad-op"
+  | ["base", p] => match hx p with | some p => charsToHex (pathBase p) | none => "bad-op"
+  | ["extract", p] =>
+    match hx p with
+    | some p => match extractStreamPathAndExt p with
+      | some (sp, ext) => s!"{charsToHex sp} {charsToHex ext}"
+      | none => "panic"
+    | none => "bad-op"
+  | ["atoi", p] => match hx p with
+    | some p => match atoi p with | some n => s!"{n}" | none => "err"
+    | none => "bad-op"
+  | _ => "bad-op"
+
 end IpcHub.Drv.C11
